@@ -168,6 +168,60 @@ EXTRA = [
     a = inner(2, k=n) + other(1, 2)
   return a
 '''),
+    ('e:bound_only_on_jump_edge', '''def f(x, n, b, xs):
+  for v in xs:
+    if v > x:
+      found = v
+      break
+    other = v
+    continue
+  if b:
+    q = 1
+  w = 0
+  while w < n:
+    w = w + 1
+    if b:
+      hit = w
+      break
+  if x > 0:
+    q = 2
+  y = 1
+  pass
+  if b:
+    y = 2
+  return y
+'''),
+    ('e:def_last_in_loop_body', '''def f(x, n, b, xs):
+  total = 1
+  last = 0
+  for v in xs:
+    last = v
+    def get():
+      return total + last
+  if b:
+    total = 10
+  else:
+    if x > 1:
+      total = 20
+      def get():
+        return total - last
+  c = 0
+  if n > 0:
+    c = get()
+  return c
+'''),
+    ('e:comprehension_iterable_same_name', '''def f(x, n, b, xs):
+  v = [1, 2]
+  k = 'a'
+  d = {'a': [3]}
+  if b:
+    v = [x, n]
+    k = 'a'
+  r = [v * 2 for v in v]
+  s = {k: m for k in d[k] for m in (1,)}
+  u = sum(e for e in xs if e > x)
+  return (r, s, u)
+'''),
     ('e:maybe_undefined', '''def f(x, n, b, xs):
   if b:
     u = 1
